@@ -11,7 +11,10 @@ EXT = ["amsmath", "attrs_inline", "attrs_block", "colon_fence", "deflist", "doll
        "html_image", "linkify", "replacements", "smartquotes", "strikethrough", "substitution", "tasklist"]
 JUNK = [None, True, False, 0, 1, 7, 8, -1, 2.5, "", "a", "dollarmath", [], ["a"], ["dollarmath"], ["dollarmath", "nope"], ("amsmath",), {"a"},
         {}, {"a": "b"}, {"a": 1}, {"http": None}, {"http": "x{{path}}"}, {"http": {"url": "u"}}, {"http": {"url": 1}}, {"http": {"title": "t"}},
-        {1: "b"}, [1], ["{", "}"], ("{", "}"), ("ab", "c"), ("a",), [[]], {"k": {"classes": ["c"], "url": "u"}}]
+        {1: "b"}, [1], ["{", "}"], ("{", "}"), ("ab", "c"), ("a",), [[]], {"k": {"classes": ["c"], "url": "u"}},
+        # the three optional entries of a url scheme, each with a value of the wrong shape
+        {"k": {"url": "u", "classes": [1, 2]}}, {"k": {"url": "u", "classes": "abc"}}, {"k": {"url": "u", "classes": ("c",)}},
+        {"k": {"url": "u", "title": 3}}, {"k": {"url": "u", "title": "t", "classes": []}}]
 
 
 def is_strs(v, kinds):
